@@ -25,7 +25,8 @@ CLAUSES = [
       "SCoda.C04.cutoff_okA", "SCoda.C04.quantise_okA", "SCoda.C04.qnl_okA", "SCoda.C04.mapAbs_okA",
       "SCoda.C04.onRel_refines", "SCoda.C04.onAbs_refines", "SCoda.C04.overwriteAbs_refines", "SCoda.C04.overwriteRel_refines",
       "SCoda.C04.refresh_refines", "SCoda.C04.copy_inv"]),
-    ("the public operations found by introspection are all covered by the model's alphabet (regenerated list, kernel-decided)",
+    ("tripwire: every public name of Sequence found by introspection (regenerated list) appears in the hand-written classification table and "
+     "vice versa — a new or removed public method breaks it; it says nothing about what the methods do",
      ["SCoda.C04.ops_covered", "SCoda.C04.ops_exist"]),
 ]
 RULE = ("random histories (<=12 ops quick, <=40 thorough) over the full public alphabet (mutators, both overwrites, edits while "
